@@ -255,6 +255,10 @@ def _parts(tier):
                                                                rests=[("r0", 2, 2, 1, 1), ("r1", 18, 3, None, None), ("r2", 21, 1, 1, 1)], measures=[(0, 12), (12, 24)], key=(1, "major"))))
     out.append(("two_two_then_three_eight_rests", lambda: G.build_part("P1", 2, ts=((0, 2, 2), (8, 3, 8)), notes=[("a", 0, 3, "C", None, 4, 1, 1), ("b", 4, 4, "D", None, 4, 1, 1), ("c", 9, 2, "E", None, 4, 1, 1)],
                                                                        rests=[("r0", 3, 1, 1, 1), ("r1", 8, 1, 1, 1)], measures=[(0, 8), (8, 11)])))
+    out.append(("relative_key_change_same_fifths", lambda: G.build_part("P1", 4, notes=[("a", 0, 8, "C", None, 4, 1, 1), ("b", 8, 8, "A", None, 3, 1, 1), ("c", 16, 8, "E", None, 4, 1, 1), ("d", 24, 8, "A", None, 3, 1, 1)],
+                                                                       rests=[("r0", 32, 8, 1, 1)], key=(0, "major"), measures=[(0, 16), (16, 32), (32, 48)],
+                                                                       extra=lambda p, byid: (p.add(_sc().KeySignature(0, "minor"), 16), p.add(_sc().KeySignature(3, "major"), 24), p.add(_sc().KeySignature(3, "minor"), 32)))))
+
     def counted_in_two():
         p = G.build_part("P1", 4, ts=((0, 4, 4), (32, 3, 4)), notes=[("a", 0, 6, "C", None, 4, 1, 1), ("b", 6, 10, "D", None, 4, 1, 1), ("c", 16, 16, "E", None, 4, 1, 1), ("d", 34, 4, "F", None, 4, 1, 1)],
                          measures=[(0, 16), (16, 32), (32, 44)])
@@ -408,6 +412,23 @@ def _inverse_from_parts(b):
     """note arrays taken from generated parts with signature changes (numerator only, denominator only, both) -> score -> note array"""
     from gen import scores as G
     from partitura.musicanalysis.note_array_to_score import note_array_to_score
+    # arrays with a pickup (negative onsets in beats), with and without the clean-up pass
+    for name, ts, pick in (("pickup_3_4", (3, 4), 4), ("pickup_6_8", (6, 8), 2)):
+        bar = 4 * 4 * ts[0] // ts[1]
+        notes = [("u", 0, pick, "G", None, 4, 1, 1)] + [("n%d" % k, pick + k * (bar // 3), bar // 3, "CDEFGAB"[k % 7], None, 4, 1, 1) for k in range(6)]
+        part = G.build_part("P", 4, ts=((0, ts[0], ts[1]),), notes=notes, measures=[(0, pick), (pick, pick + bar), (pick + bar, pick + 2 * bar)])
+        na = part.note_array(include_time_signature=True)
+        cols = ["onset_beat", "duration_beat", "onset_div", "duration_div", "pitch", "ts_beats", "ts_beat_type"]
+        sub = np.array([tuple(r[c] for c in cols) for r in na], dtype=[(c, na.dtype[c]) for c in cols])
+        for sanitize in (True, False):
+            case = {"inverse_from_part": name, "sanitize": sanitize}
+            ok, score = b.guard("inverse/no_exception", case, lambda: note_array_to_score(sub, sanitize=sanitize))
+            if not ok:
+                continue
+            back = score.note_array() if hasattr(score, "note_array") else score[0].note_array()
+            got = sorted((round(float(r["onset_beat"]), 4), round(float(r["duration_beat"]), 4), int(r["pitch"])) for r in back)
+            want = sorted((round(float(r["onset_beat"]), 4), round(float(r["duration_beat"]), 4), int(r["pitch"])) for r in na)
+            b.case("inverse/note_array_to_score_and_back_same_onsets_durations_pitches", got == want, case, "round trip %r, expected %r" % (got[:5], want[:5]))
     for name, tss in (("3_4_to_3_8", ((0, 3, 4), (24, 3, 8))), ("2_4_to_2_2", ((0, 2, 4), (16, 2, 2))), ("4_4_to_6_8", ((0, 4, 4), (32, 6, 8))), ("3_4_to_4_4", ((0, 3, 4), (24, 4, 4)))):
         first_len = tss[1][0]
         notes = [("n%d" % k, k * 4, 4, "CDEFGAB"[k % 7], None, 4, 1, 1) for k in range(first_len // 4 + 6)]
